@@ -480,11 +480,11 @@ def C04ex.bytes : List UInt8 :=
   [66, 85, 70, 82, 0, 0, 54, 3, 0, 0, 18, 0, 0, 98, 0, 0, 2, 0, 29, 0, 20, 1, 2, 3, 4, 5, 0, 0, 18, 0, 0, 1, 128,
    31, 31, 31, 31, 31, 31, 31, 31, 31, 31, 0, 0, 0, 6, 0, 176, 0, 55, 55, 55, 55]
 
-theorem C04ex.encodes : encode Gen.layouts {} C04ex.vals C04ex.payload =
+theorem C04_ex_encodes : encode Gen.layouts {} C04ex.vals C04ex.payload =
     .ok { bytes := C04ex.bytes, trace := [(0, 64), (1, 144), (3, 144), (4, 48), (5, 32)] } := by decide +kernel
 
 /-- the values are valid for the layouts they are written with (five sections: 0, 1, 3, 4, 5) -/
-theorem C04ex.valid : ∀ v ∈ RT.encodeVisits Gen.layouts {} C04ex.vals C04ex.payload, RT.valsOK v.s.params v.vs = true := by
+theorem C04_ex_valid : ∀ v ∈ RT.encodeVisits Gen.layouts {} C04ex.vals C04ex.payload, RT.valsOK v.s.params v.vs = true := by
   decide +kernel
 
 /-- non-vacuity of `C04_decode_encode`: every hypothesis holds for the example message and the raw data
@@ -492,7 +492,7 @@ theorem C04ex.valid : ∀ v ∈ RT.encodeVisits Gen.layouts {} C04ex.vals C04ex.
 example (t : List UInt8) : ∃ m, decode Gen.layouts (rawCoder 5) {} (C04ex.bytes ++ t) = .ok m ∧
     m.serialized = C04ex.bytes ∧ m.nbits = 432 ∧ m.data = some C04ex.payload := by
   obtain ⟨m, h1, h2, h3, _, h5⟩ := C04_decode_encode Gen.layouts C04_bundled_layouts_wf C04_bundled_layouts_rt {}
-    C04ex.vals C04ex.payload _ (rawCoder 5) C04ex.payload rfl C04ex.encodes C04ex.valid
+    C04ex.vals C04ex.payload _ (rawCoder 5) C04ex.payload rfl C04_ex_encodes C04_ex_valid
     (fun _ _ _ rD _ x => readBits_append_of_length 5 C04ex.payload x rfl) t
   refine ⟨m, h1, h2, h3, ?_⟩
   rw [h5]
@@ -500,7 +500,7 @@ example (t : List UInt8) : ∃ m, decode Gen.layouts (rawCoder 5) {} (C04ex.byte
   rw [this]; rfl
 
 /-- the registries `hdec` quantifies over, on the example: the encoder's registry at the template data … -/
-theorem C04ex.dataReg : (RT.encodeVisits Gen.layouts {} C04ex.vals C04ex.payload).filterMap
+theorem C04_ex_dataReg : (RT.encodeVisits Gen.layouts {} C04ex.vals C04ex.payload).filterMap
       (fun v => if RT.hasData v.s.params then
         some (let r := register v.reg v.start 0 (RT.beforeData v.s.params) v.vs
               (r.get? "n_subsets", r.get? "is_compressed", r.get? "unexpanded_descriptors")) else none) =
